@@ -134,6 +134,30 @@ pub fn fixed_cases() -> Vec<Case> {
         b.extend_from_slice(b"plain text after a declared but unprobed charset, with a few words more");
         push("fixed-declared-unprobed", b, d.clone());
     }
+    // blank / whitespace-only filter entries are unknown labels: an error naming them, never silently dropped
+    for blank in ["", " ", "\t"] {
+        for side in 0..2 {
+            let mut s = d.clone();
+            if side == 0 { s.include_encodings = vec![blank.to_string()]; } else { s.exclude_encodings = vec!["utf-8".into(), blank.to_string()]; }
+            push("fixed-blank-filter-entry", b"plain words, nothing else".to_vec(), s);
+        }
+    }
+    // every proper prefix of every mark, and every mark followed by 0 / 1 byte, as the WHOLE input
+    for (_, m) in marks() {
+        for k in 1..=m.len() {
+            push("fixed-mark-prefix", m[..k].to_vec(), d.clone());
+        }
+        let mut b = m.to_vec();
+        b.push(b'a');
+        push("fixed-mark-plus-one", b, d.clone());
+    }
+    // huge step counts with chunk size 0 / 1
+    for (st, ch) in [(usize::MAX, 0usize), (usize::MAX / 2, 0), (usize::MAX, 1), (1usize << 62, 0)] {
+        let mut s = d.clone();
+        s.steps = st;
+        s.chunk_size = ch;
+        push("fixed-huge-steps", b"abc def ghi jkl".to_vec(), s);
+    }
     push("fixed-declared-wrong", b"<meta charset=utf-16le>\xcf\xf0\xe8\xe2\xe5\xf2 \xec\xe8\xf0, \xea\xe0\xea \xe4\xe5\xeb\xe0".to_vec(), d.clone());
     v
 }
@@ -235,12 +259,12 @@ pub fn run(o: &DetectOpts) -> serde_json::Value {
                     let l = rng.pick(LABEL_POOL).to_string();
                     if rng.chance(2, 3) { c.settings.include_encodings.push(l) } else { c.settings.exclude_encodings.push(l) }
                 }
-                if rng.chance(1, 10) {
+                if rng.chance(1, 5) {
                     let bad = rng.pick(BAD_LABELS).to_string();
                     if rng.chance(1, 2) { c.settings.include_encodings.push(bad) } else { c.settings.exclude_encodings.push(bad) }
                 }
             }
-            if (o.focus == "C06" || o.focus == "C07" || o.focus == "C18") && rng.chance(1, 3) {
+            if ((o.focus == "C06" || o.focus == "C07" || o.focus == "C18" || o.focus == "C09" || o.focus == "C10") && rng.chance(1, 3)) || (o.focus != "C05" && o.focus != "E2E" && rng.chance(1, 9)) {
                 // a hint whose own decoding is NOISY: chaos of the hinted encoding lands between 0 and the threshold, on
                 // both sides of the 10% bound of the early exit.  Hint = BOM / signature (2 in 4), declaration (1 in 4), or
                 // none (plain utf-8 / ascii); body = text valid in the hinted encoding with symbols, control characters or
@@ -250,7 +274,14 @@ pub fn run(o: &DetectOpts) -> serde_json::Value {
                 let denc = *rng.pick(&["windows-1252", "koi8-r", "utf-8", "iso-8859-7", "shift_jis", "windows-1251"]);
                 let enc = if menc == "decl" { denc } else { menc };
                 let base: String = rng.pick(&corpus.texts).chars().skip(rng.below(100)).take(rng.range(20, 700)).collect();
-                let noise: Vec<char> = "\u{1b}[K\u{a4}\u{a7}\u{b6}\u{2020}\u{2021}\u{2030}\u{7}\u{1}|~^`\u{00d7}\u{00f7}".chars().collect();
+                // (one case in three: a pure 7-bit body with 7-bit noise only -- then `ascii` is a candidate as well -- and a
+                // declaration that may duplicate a built-in hint: utf-8 / ascii)
+                let seven = rng.chance(1, 3);
+                let (menc, m): (&str, &[u8]) = if seven { ("decl", &[]) } else { (menc, m) };
+                let denc = if seven { *rng.pick(&["utf-8", "ascii", "windows-1252", "koi8-r", "iso-8859-2", "us-ascii", "utf8"]) } else { denc };
+                let enc = if menc == "decl" { denc } else { menc };
+                let base: String = if seven { String::from_utf8_lossy(&ascii_text(&mut rng, 60 + base.len() % 400)).to_string() } else { base };
+                let noise: Vec<char> = if seven { "\u{1b}[K\u{7}\u{1}|~^`#$%{}<>".chars().collect() } else { "\u{1b}[K\u{a4}\u{a7}\u{b6}\u{2020}\u{2021}\u{2030}\u{7}\u{1}|~^`\u{00d7}\u{00f7}".chars().collect() };
                 let rate = *rng.pick(&[3usize, 5, 8, 12, 20, 40]);
                 let mut t = String::new();
                 for (i, ch) in base.chars().enumerate() {
@@ -298,6 +329,22 @@ pub fn run(o: &DetectOpts) -> serde_json::Value {
                 c.kind = format!("{}+mark", c.kind);
             }
             cases.push(c);
+        }
+        if o.focus == "C18" {
+            // every supported name alone in the include list, on a 7-bit text, a corpus text and a text in that encoding:
+            // whatever name detection can be made to report must be canonical, aliased, usable
+            let names = supported();
+            for e in &names {
+                let t: String = rng.pick(&corpus.texts).chars().take(200).collect();
+                for body in [ascii_text(&mut rng, 120), encode_text(&t, e).unwrap_or_else(|| t.as_bytes().to_vec())] {
+                    let mut s = default_settings();
+                    s.include_encodings = vec![e.clone()];
+                    cases.push(Case { kind: "every-name-restricted".into(), bytes: body, settings: s });
+                }
+            }
+            let mut s = default_settings();
+            s.exclude_encodings = vec!["ascii".into(), "utf-8".into()];
+            cases.push(Case { kind: "seven-bit-without-ascii-utf8".into(), bytes: ascii_text(&mut rng, 300), settings: s });
         }
         if o.focus == "C09" {
             // directed search for inputs on which the DIRECTION of the similarity relation matters:
@@ -372,7 +419,19 @@ pub fn run(o: &DetectOpts) -> serde_json::Value {
         //  4 ASCII for the first 500,000+ bytes, then legacy single-byte text (a log that turns Cyrillic / a text header
         //    followed by other content): the sampled chunks beyond the pre-checked prefix hold bytes some code pages do not define
         //  5 legacy single-byte text throughout
+        //  6 (every 4th large case, and the 4th of a run): MULTI-BYTE text (utf-8 / shift_jis / big5 / euc-kr / gb18030) above
+        //    1,048,576 bytes behind a 0..3-byte prefix: whole-input strict decoding of a multi-byte candidate in one piece
         for kk in 0..o.big {
+            if kk % 4 == 3 {
+                let enc = ["shift_jis", "utf-8", "big5", "euc-kr", "gb18030"][(kk / 4) % 5];
+                let n_mb = 1_060_000 + rng.below(200_000);
+                let b = multibyte_text(&mut rng, &corpus, n_mb, enc);
+                let mut s = default_settings();
+                s.include_encodings = vec![enc.to_string(), "utf-8".into(), "ascii".into()];
+                cases.push(Case { kind: "large-multibyte".into(), bytes: b, settings: s });
+                continue;
+            }
+            let kk = kk - kk / 4;
             let k = (if o.focus == "C13" { [5usize, 4, 0, 1, 2, 3] } else { [0usize, 1, 4, 2, 3, 5] })[kk % 6] + 6 * (kk / 6);
             if k % 6 >= 4 {
                 let target = 1_000_001 + rng.below(300_000);
@@ -645,9 +704,17 @@ pub fn run(o: &DetectOpts) -> serde_json::Value {
         for k in 0..(o.n / 4).max(10) {
             let t = rng.pick(&corpus.texts);
             let take = rng.range(1, 1200);
-            let t: String = t.chars().skip(rng.below(300)).take(take).collect();
+            let mut t: String = t.chars().skip(rng.below(300)).take(take).collect();
             if t.is_empty() {
                 continue;
+            }
+            if k % 5 == 4 {
+                // a text whose first characters, in a single-byte code page, are the bytes of a mark of ANOTHER encoding, and
+                // whose last characters carry mess: every character counts, the first and the last ones too
+                let head = *rng.pick(&["\u{ef}\u{bb}\u{bf}", "\u{ff}\u{fe}", "\u{fe}\u{ff}", "\u{201e}1\u{2022}3"]);
+                let tail = *rng.pick(&["\u{a4}\u{a7}\u{b6}\u{a4}", "\u{e9}\u{e8}\u{ea}\u{eb}", "\u{a7}\u{a7}\u{a7}", "\u{b6}\u{a4}"]);
+                let body: String = t.chars().filter(|c| (*c as u32) < 0x100).take(rng.range(4, 120)).collect();
+                t = format!("{}{}{}", head, body, tail);
             }
             let mut s = default_settings();
             if k % 3 == 1 {
